@@ -1,7 +1,7 @@
 """C01 - restructuring preserves every execution path (DESIGN 4/C01)."""
 from __future__ import annotations
 
-from ..families import as_named
+from ..families import as_named, entry_name, get_labeling
 from ..hier import Hier
 from ..runner import Acc
 from ..sweep import graph_case, graph_spec, staged, sweep, exc_fingerprint
@@ -21,7 +21,7 @@ def check_graph(g, fam, acc: Acc, opts):
             return
         hier = Hier(scfg)
         for kind in WALKERS:
-            r = product(G, "0", hier, kind)
+            r = product(G, entry_name(), hier, kind)
             acc.states += r.states
             acc.transitions += r.transitions
             acc.counters[f"products[{stage},{kind}]"] += 1
@@ -33,7 +33,7 @@ def check_graph(g, fam, acc: Acc, opts):
                                          decisions=[list(p) for p in path]))
             acc.outcomes.add((r.states, r.transitions))
     # conformance legs: bind the region walker to real consumers (never reported as C01 violations)
-    if len(g) <= opts.get("conform_max_blocks", 5) and payload == "basic":
+    if len(g) <= opts.get("conform_max_blocks", 5) and payload == "basic" and get_labeling() is None:
         H = opts.get("conform_horizon", 5)
         for leg, fn in (("generated-code", generated_code_leg), ("simulator", simulator_leg)):
             n, mism, status = fn(g, H)
